@@ -15,6 +15,8 @@ PAYLOADS = [
     ("literals", {"properties": {"k": {"enum": [1, True, "1", None]}, "c": {"const": {"a": [1, True]}}}, "default": {"k": 1}}),
     ("union", {"properties": {"u": {"type": ["integer", "string"], "minimum": 1}, "v": {"anyOf": [{"type": "integer"}, {"type": "array", "items": {"type": "string"}}]}}}),
     ("compat-names", {"properties": {"\ufb01le": {"type": "string"}, "\uff2b": {"type": "integer"}, "\u00b5": {"type": "null"}}, "required": ["\ufb01le"], "additionalProperties": False}),
+    ("nested-property-keywords", {"dependencies": {"cc": {"properties": {"n": {"type": "integer"}}, "required": ["n"]}}, "additionalProperties": {"properties": {"z": {"type": "string"}}}, "patternProperties": {"^q": {"properties": {"w": {}}}}}),
+    ("multi-key-literals", {"properties": {"o": {"default": {"b": 1, "a": 2, "c": {"z": 0, "y": 1}}}, "e": {"enum": [{"x": 1, "y": 2, "w": 3}, "s"]}, "c": {"const": {"k2": None, "k1": [1], "k0": True}}}, "default": {"o": {"q": 1, "p": 2}}}),
     ("bare-list", {"properties": {"l": {"type": "array"}, "m": {"type": "array", "items": [{"type": "integer"}, {"type": "string"}]}}}),
 ]
 DESCRIPTIONS = [None, "plain description", 'with "quotes" and \\ backslash', "two\nlines"]
